@@ -133,7 +133,7 @@ def real_db(case):
     b = BpSeq.from_dotbracket(db)
     out["entries"] = "".join(e.sequence for e in b.entries) + " " + g1.pstr([e.pair for e in b.entries])
     out["pairs"] = [e.pair for e in b.entries]
-    out["opt"] = call(lambda: b.dot_bracket.structure)
+    out["opt"] = call_timed(lambda: b.dot_bracket.structure)
     out["fcfs"] = call(lambda: b.fcfs.structure)
     return out
 
